@@ -1,8 +1,24 @@
-/* contract of snoopy_message_generateFromFormat as seen by its callers (enforced in the C05/C02 runs) */
+/* contracts of src/message.c.  snoopy_message_generateFromFormat is ENFORCED in C05.expand.sizes (with the loop contract
+ * loops/message.json) and REPLACED by this contract in the output runs (C04/C17). */
 #pragma once
 #include <stddef.h>
+extern size_t verif_fmt_len;      /* ghost: length of the (registered) format string of the run that enforces the contract */
 void snoopy_message_generateFromFormat (char * const logMessage, size_t logMessageBufSize, size_t dataSourceMsgMaxLength, char const * const logMessageFormat)
-__CPROVER_requires(logMessageBufSize >= 1 && __CPROVER_w_ok(logMessage, logMessageBufSize) && logMessage[0] == 0)
+__CPROVER_requires(logMessageBufSize >= 1 && logMessageBufSize <= 1048577 && dataSourceMsgMaxLength >= 1 && dataSourceMsgMaxLength <= 1048576)
+__CPROVER_requires(__CPROVER_w_ok(logMessage, logMessageBufSize) && logMessage[0] == 0)
 __CPROVER_requires(__CPROVER_r_ok(logMessageFormat, 1))
 __CPROVER_assigns(__CPROVER_object_upto(logMessage, logMessageBufSize))
-__CPROVER_ensures(logMessage[logMessageBufSize - 1] == 0);
+__CPROVER_ensures(1);
+void snoopy_message_append (char * logMessage, size_t logMessageBufSize, char const * const appendThis)
+__CPROVER_requires(logMessageBufSize >= 1 && __CPROVER_w_ok(logMessage, logMessageBufSize) && __CPROVER_r_ok(appendThis, 1))
+__CPROVER_assigns(__CPROVER_object_upto(logMessage, logMessageBufSize))
+__CPROVER_ensures(1);
+int snoopy_datasourceregistry_doesNameExist (char const * const datasourceName)
+__CPROVER_requires(__CPROVER_r_ok(datasourceName, 1))
+__CPROVER_assigns()
+__CPROVER_ensures(__CPROVER_return_value == 0 || __CPROVER_return_value == 1);
+int snoopy_datasourceregistry_callByName (char const * const datasourceName, char * const resultBuf, size_t resultBufSize, char const * const datasourceArg)
+__CPROVER_requires(__CPROVER_r_ok(datasourceName, 1) && __CPROVER_r_ok(datasourceArg, 1))
+__CPROVER_requires(resultBufSize >= 2 && __CPROVER_w_ok(resultBuf, resultBufSize))
+__CPROVER_assigns(__CPROVER_object_upto(resultBuf, resultBufSize))
+__CPROVER_ensures(1);
